@@ -223,6 +223,21 @@ def referenced_operand_programs():
     out.append(("ref:IfThenElse", prog(4, base + [c1, c2, con("IfThenElse", "t", condition=E(["==", ["start", "b"], 0]),
                                                             then_list_of_constraints=[R("c1")], else_list_of_constraints=[R("c2")])])))
     out.append(("ref:And+Not", prog(4, base + [c1, c2, con("Not", "t1", constraint=R("c1")), con("And", "t2", list_of_constraints=[R("t1"), R("c2")])])))
+    # one constraint object used by two connectives: each use means the constraint alone, whatever else stood next to
+    # it in the other connective
+    c3 = con("TaskEndAt", "c3", task=R("b"), value=3)
+    cond = E(["==", ["start", "b"], 0])
+    for first in ("c1", "c2"):
+        second = "c2" if first == "c1" else "c1"
+        out.append(("ref:shared/Implies+Or", prog(4, base + [c1, c2, c3, con("Implies", "t1", condition=cond, list_of_constraints=[R(first), R(second)]),
+                                                              con("Or", "t2", list_of_constraints=[R(first), R("c3")])])))
+        out.append(("ref:shared/And+Xor", prog(4, base + [c1, c2, c3, con("Not", "t0", constraint={"$new": con("And", "t1", list_of_constraints=[R(first), R(second)])}),
+                                                           con("Xor", "t2", constraint_1=R(first), constraint_2=R("c3"))])))
+        out.append(("ref:shared/IfThenElse+Or", prog(4, base + [c1, c2, c3, con("IfThenElse", "t1", condition=cond, then_list_of_constraints=[R(first), R(second)],
+                                                                                 else_list_of_constraints=[R("c3")]),
+                                                                 con("Or", "t2", list_of_constraints=[R(first), R("c3")])])))
+        out.append(("ref:shared/Or+Or", prog(4, base + [c1, c2, c3, con("Or", "t1", list_of_constraints=[R(first), R(second)]),
+                                                         con("Or", "t2", list_of_constraints=[R("c3"), R(first)])])))
     return out
 
 
